@@ -68,8 +68,25 @@ pub fn run(seed: u64, thorough: bool, out: &mut Out) {
         let g = SearchGen { nq: 1 + r.below(2), nh: r.below(2), dfs_safe: true, committed: false, calls: true };
         let k = 1 + r.below(2);
         let depth = 1 + r.below(3);
+        let k = if r.chance(1, 3) { k + 1 } else { k };
         let body: Vec<PG> = (0..k).map(|_| g.goal(&mut r, depth)).collect();
-        let p = Prog { nvars: g.nq + g.nh, nq: g.nq, take: 0, body: vec![PG::Dfs(body)], raw: true };
+        // `dfs { [g1, g2] }` (one clause) or `dfs { g1, g2 }` (comma-separated top-level clauses, each possibly a
+        // bracketed conjunction itself): the clauses are conjoined in the order written (seeded change C05-d)
+        let top = if body.len() >= 2 && r.chance(1, 2) {
+            out.stat("dfs_with_several_top_level_clauses");
+            let mut cs: Vec<Vec<PG>> = vec![];
+            for g1 in body {
+                if !cs.is_empty() && r.chance(1, 4) {
+                    cs.last_mut().unwrap().push(g1);
+                } else {
+                    cs.push(vec![g1]);
+                }
+            }
+            PG::DfsC(cs)
+        } else {
+            PG::Dfs(body)
+        };
+        let p = Prog { nvars: g.nq + g.nh, nq: g.nq, take: 0, body: vec![top], raw: true };
         out.stat("generated");
         record(&p, out);
     }
